@@ -154,7 +154,32 @@ class Director:
             es_ = sorted(tb.all_evars(ctx_term)) or list(self.evs)
             ss_ = sorted(tb.all_svars(ctx_term)) or list(self.svs)
             r = rng.random()
-            if r < 0.35:
+            if r < 0.2:
+                # capture-discriminating shapes: a variable both outside and inside the scope of another binder,
+                # under application (whose interpretation is arbitrary), e.g. x0 . (E x1. x0)
+                a, b = rng.choice(es_), rng.choice(es_ + [(max(es_) + 1) % 3])
+                X = rng.choice(ss_)
+                s = tb.sy(rng.choice(self.syms))
+                return rng.choice((
+                    tb.ap(tb.ev(a), tb.ex(b, tb.ev(a))), tb.ap(tb.ex(b, tb.ev(a)), tb.ev(a)),
+                    tb.ap(tb.ev(a), tb.ex(b, tb.ap(tb.ev(a), tb.ev(b)))), tb.ap(tb.sv(X), tb.ex(b, tb.sv(X))),
+                    tb.ap(tb.sv(X), tb.mu((X + 1) % 3, tb.sv(X))), tb.ap(tb.ev(a), tb.mu(X, tb.ap(tb.ev(a), tb.sv(X)))),
+                    tb.ap(s, tb.ex(b, tb.ap(tb.ev(a), tb.ev(b)))), tb.ex(b, tb.ap(tb.ev(a), tb.ev(b))),
+                    tb.ap(tb.sv(X), tb.ex(b, tb.ap(tb.sv(X), tb.ev(b)))),
+                ))
+            if r < 0.26:
+                # positivity traps: the checker must refuse to build these (non-positive mu); if it does not, they end up inside theorems
+                X = rng.choice(ss_)
+                Y = (X + 1) % 3
+                s = tb.sy(rng.choice(self.syms))
+                return rng.choice((
+                    tb.mu(X, tb.neg(tb.sv(X))), tb.mu(X, tb.im(tb.sv(X), s)), tb.mu(X, tb.ap(s, tb.neg(tb.sv(X)))),
+                    tb.mu(X, tb.im(tb.im(s, tb.sv(X)), tb.sv(X))), tb.mu(X, tb.mu(Y, tb.im(tb.sv(X), tb.sv(Y)))),
+                    tb.mu(X, tb.ex(rng.choice(es_), tb.neg(tb.sv(X)))),
+                ))
+            if r < 0.34:
+                return gp.rand_concrete(rng, rng.randint(2, 3), tuple(es_), tuple(ss_), self.syms, wf=rng.random() < 0.6)
+            if r < 0.5:
                 return tb.ev(rng.choice(es_))
             if r < 0.6:
                 return tb.sv(rng.choice(ss_))
